@@ -157,6 +157,24 @@ def check_slots(ctx, rep, f, rule='R-SLOT'):
                             enclosing_fill = any(any(y is fl for y in ast.walk(n)) for fl in fills)
                             if not enclosing_fill:
                                 sites.append((s, ('loop', n), 'indexed loop'))
+        # any other direct read C[e] of a slot
+        covered = {id(x) for (nd, g, w) in sites for x in ast.walk(nd if not isinstance(nd, ast.comprehension) else nd.iter)}
+        for (nd, g, w) in sites:
+            if isinstance(g, ast.comprehension):
+                for owner in walk_no_nested(f.node):
+                    if isinstance(owner, (ast.GeneratorExp, ast.ListComp, ast.SetComp)) and g in owner.generators:
+                        covered |= {id(x) for x in ast.walk(owner)}
+            if isinstance(g, tuple):
+                covered |= {id(x) for x in ast.walk(g[1])}
+        fill_nodes = {id(x) for fl in fills for x in ast.walk(fl)}
+        for fl in fills:
+            for l2 in walk_no_nested(f.node):
+                if isinstance(l2, ast.For) and any(x is fl for x in ast.walk(l2)):
+                    fill_nodes |= {id(x) for x in ast.walk(l2)}
+        for s2 in walk_no_nested(f.node):
+            if isinstance(s2, ast.Subscript) and u(s2.value) == C and isinstance(s2.ctx, ast.Load) and id(s2) not in covered and id(s2) not in fill_nodes \
+                    and not isinstance(s2.slice, ast.Slice):
+                sites.append((s2, ('direct', s2), 'direct slot read'))
         seen = set()
         for (node, gen, what) in sites:
             key = id(node)
@@ -173,6 +191,11 @@ def check_slots(ctx, rep, f, rule='R-SLOT'):
                            (a[0] == 'empty' and a[3] is False and (a[1] == x or a[1] == '{}[{}]'.format(C, x))) or \
                            (a[0] == 'in' and a[3] is True and (a[2] == x or a[2] == '{}[{}]'.format(C, x))):
                             ok = True
+            elif isinstance(gen, tuple) and gen[0] == 'direct':
+                nid = fx.stmt_of_expr(node)
+                atoms = must_atoms(fx).get(nid, frozenset()) if nid is not None else frozenset()
+                tx = u(node)
+                ok = any((a[0] == 'truthy' and a[3] is True and a[1] == tx) or (a[0] == 'empty' and a[3] is False and a[1] == tx) or (a[0] == 'in' and a[3] is True and a[2] == tx) for a in atoms)
             elif isinstance(gen, tuple) and gen[0] == 'loop':
                 nid = fx.stmt_of_expr(node)
                 loop = gen[1]
@@ -210,6 +233,14 @@ def _tm_skeleton(ctx, f):
         if isinstance(s, ast.If) and len(s.body) == 1 and isinstance(s.body[0], (ast.Return, ast.Break)):
             tests.append(u(s.test))
     sk['tests'] = tuple(tests)
+    # relative order of the step call and the halting tests inside the loop body
+    order = []
+    for s in loop.body:
+        if call_stmt and s is call_stmt[0]:
+            order.append('step')
+        elif isinstance(s, ast.If) and len(s.body) == 1 and isinstance(s.body[0], (ast.Return, ast.Break)):
+            order.append('test')
+    sk['order'] = tuple(order)
     pre = []
     for s in f.node.body:
         if s is loop:
@@ -236,7 +267,8 @@ def check_tm_loops(ctx, rep, f_acc, f_sim, rule='R-TM'):
     if a is None or b is None:
         rep.undecided(rule + '.agree', f_acc, 'def ' + f_acc.name, 'loop skeleton not recognised (one loop, one step call expected)')
     else:
-        for k, what in (('iter', 'step budget'), ('call', 'step call'), ('call_target', 'step result binding'), ('tests', 'order and targets of the halting tests')):
+        for k, what in (('iter', 'step budget'), ('call', 'step call'), ('call_target', 'step result binding'), ('tests', 'order and targets of the halting tests'),
+                        ('order', 'position of the step relative to the halting tests')):
             if a[k] == b[k]:
                 rep.holds(rule + '.agree', f_acc, what, 'verdict loop and trace loop agree on the {}: {}'.format(what, a[k]))
             else:
